@@ -30,6 +30,8 @@ def run_script(sc):
 
     stubs.reset_log()
     emit = stubs.emit
+    giles = sc.get("giles")          # real GilesConvergenceCriteria, bounded pseudo-random payoffs
+    stubs.VALUED[0] = {"c0": giles["c0"], "jit": giles["jit"]} if giles else None
     steps = list(sc["steps"])
     pos = [0]
     gen = random.Random(sc["gen"]) if "gen" in sc else None
@@ -86,6 +88,19 @@ def run_script(sc):
         emit(e="Crit", ret=ret, nml=int(len(ml)))
         return ret
 
+    if giles:
+        from rpylib.montecarlo.multilevel.criteria import compute_mc_paths_giles, criteria_giles
+
+        def compute_mc_paths(rmse, vl, cl):   # noqa: F811  (recording wrapper around the real allocation)
+            ret = compute_mc_paths_giles(rmse, vl, cl)
+            emit(e="Ns", ret=[exact_int(x) for x in ret], nvl=int(len(vl)), ncl=int(len(cl)))
+            return ret
+
+        def criteria(alpha, ml, rmse):        # noqa: F811  (recording wrapper around the real bias test)
+            ret = bool(criteria_giles(alpha, ml, rmse))
+            emit(e="Crit", ret=ret, nml=int(len(ml)))
+            return ret
+
     cv = None
     if sc.get("cv"):
         cv_products = [Product(Spot(), Vanilla(strike=float(k), payoff_type=PayoffType.CALL), maturity=1.0)
@@ -122,7 +137,10 @@ def run_script(sc):
             if cv is not None:
                 x = np.array(path_manager.payoff_control_variates, dtype=float)
                 st._cv_log.setdefault(int(level), {})[int(simulation)] = ((f, c), x[:, 0] if x.ndim == 2 else x[:, 0, :])
-            emit(e="Add", lvl=int(level), idx=int(simulation), f=exact_int(f / 0.5), c=exact_int(c / 0.5))
+            if giles:
+                emit(e="Add", lvl=int(level), idx=int(simulation), f=0, c=0)
+            else:
+                emit(e="Add", lvl=int(level), idx=int(simulation), f=exact_int(f / 0.5), c=exact_int(c / 0.5))
 
         def extend(mc_paths):
             emit(e="Ext", arg=[int(x) for x in mc_paths])
@@ -143,7 +161,7 @@ def run_script(sc):
         if sc.get("fixed"):
             stats = engine.price_with_constant_mc_paths_and_level(product)
         else:
-            stats = engine.price(product, rmse=0.1)
+            stats = engine.price(product, rmse=giles["rmse"] if giles else 0.1)
     except Exception as ex:  # recorded: the specification has no action that explains a crash
         exc = type(ex).__name__ + ": " + str(ex)[:120]
     finally:
@@ -175,10 +193,13 @@ def run_script(sc):
         ev.append({"e": "Lost", "lvl": pending["lvl"], "s": pending["s"]})
     if exc is not None:
         ev.append({"e": "Raise", "what": exc})
+    elif giles:
+        ev.append({"e": "Ret", "Nl": [int(x) for x in stats.mlmc_results.Nl], "cv": False, "bad": 0})
     else:
         ev.append(ret_event(stats, sc, log, MLMCResults))
     return {"tid": sc["tid"], "hdr": {"L0": sc["L0"], "N0": sc["N0"], "LMax": sc["LMax"], "fixed": bool(sc.get("fixed")),
-                                     "cv": int(sc.get("cv", 0)), "dim": int(sc.get("dim", 1))}, "ev": ev}
+                                     "cv": int(sc.get("cv", 0)), "dim": int(sc.get("dim", 1)), "ids": not giles},
+            "ev": ev}
 
 
 def ret_event(stats, sc, log, MLMCResults):
